@@ -596,7 +596,7 @@ func (s *State) evalBuiltin(node *ast.Builtin) object.Object {
 }
 
 func (s *State) evalIndexRangeExpression(left object.Object, leftIdx, rightIdx ast.Node) object.Object {
-	leftIndex := s.Eval(leftIdx)
+	leftIndex := object.CopyRegister(s.Eval(leftIdx)) // its value now: the right bound may change it (a[n:++n]).
 	nilRight := (rightIdx == nil)
 	var rightIndex object.Object
 	if nilRight {
